@@ -16,6 +16,7 @@ META = {
     "assumptions": ["transport faults (C07/C09) are excluded from these histories; inbound ResendRequests are part of them since repo fix 7af4ef7 (their replies are judged by C06)"],
 }
 REQUIRED_ORACLES = ["numbering", "journal-readback", "stored-counter", "refused-send-unchanged", "bystander-session-untouched", "stored-counter-committed"]
+REQUIRED_COUNTERS = ["overlapping_sends_cut_by_a_disconnect"]
 NSHARDS = 16
 N = {"quick": 250, "thorough": 5000}
 
